@@ -80,3 +80,31 @@ add("C05", "fate-tagged record generator + linear-scan binning reference over AP
     "built with pysam); pixel counts, totals, order independence, sided-field swaps and rejections are compared "
     "with a reference fold that uses a linear bin scan. One known finding (pos == length accepted) is listed.",
     "DESIGN.md section 4 C05")
+add("C12", "raw x w_i x w_j oracle from generated weights over exhaustive/sampled windows, all output forms and weight conventions",
+    "Coolers get 1-3 weight columns (weight/KR/VC/VC_SQRT/custom; as creation-time bin columns or stored by "
+    "balance_cooler) with per-bin distinct values and NaNs; every window up to the tier bound (sampled above, incl. "
+    "rectangular and empty ones) is read balanced through Cooler.matrix in dense, sparse and pixel form (join or not) "
+    "with balance=True|name and divisive_weights None/True/False and compared (rtol 1e-12, exact NaN pattern) with the "
+    "product computed from the generated raw matrix and weights; a missing column must raise; `cooler dump -b` is "
+    "parsed and compared the same way.",
+    "DESIGN.md section 4 C12")
+add("C14", "raw-h5py table oracle over selector ranges/columns; per-row annotate oracle over bin-table forms incl. every covering part",
+    "Selectors chroms()/bins()/pixels() are sliced with positive, negative, open, empty and scalar ranges and column "
+    "subsets on enum- and integer-encoded coolers and compared row-for-row (values and labels) with the stored tables "
+    "read by raw h5py; annotate() is driven with ordered/shuffled/re-indexed/one-sided/empty/oversized pixel subsets "
+    "against the bin table given whole, as selector and as every (sampled when many) contiguous part containing the "
+    "needed bins, checking each attached coordinate, order and index; pixels(join=True) is checked likewise.",
+    "DESIGN.md section 4 C14")
+add("C17", "per-cell PixelDict oracle + HDF5 object-address sharing check + schema validator on real scool files",
+    "Generated single-cell files (1-8 cells, different matrices incl. empty ones, tricky names, common or per-cell bin "
+    "tables with extra columns, both modes) are created with create_scool; the cell listing, recognition, each cell's "
+    "pixels/matrix/info through Cooler(file::/cells/x), sharing of bins/chrom,start,end by HDF5 object address, "
+    "per-cell extra columns and schema validity of every cell are checked against the generated inputs.",
+    "DESIGN.md section 4 C17")
+add("C18", "before/after snapshots and raw digests over renaming chains, on the live object and after reopening",
+    "For generated coolers (enum/int encodings) chains of partial renamings (swaps, longer/shorter names, renaming "
+    "back, reused names) are applied with rename_chroms; after every step names, chromosome table, bin labels and "
+    "categories, every per-chromosome query (extent, bins/pixels/matrix fetch, balanced, two-region) under the mapped "
+    "names, rejection of dropped names, the raw digest of all non-name data and schema validity are checked on the "
+    "same object and on a fresh Cooler.",
+    "DESIGN.md section 4 C18")
